@@ -146,6 +146,11 @@ impl PartialEq<Path> for PathBuf { #[verifier::external_body] fn eq(&self, other
 impl PartialEq for Path { #[verifier::external_body] fn eq(&self, other: &Path) -> (r: bool) { unimplemented!() } }
 impl PartialEq for OsStr { #[verifier::external_body] fn eq(&self, other: &OsStr) -> (r: bool) { unimplemented!() } }
 impl PartialEq for OsString { #[verifier::external_body] fn eq(&self, other: &OsString) -> (r: bool) { unimplemented!() } }
+impl core::ops::Deref for OsString {
+    type Target = OsStr;
+    #[verifier::external_body]
+    fn deref(&self) -> (r: &OsStr) ensures r@ == self@ { unimplemented!() }
+}
 impl core::ops::Deref for PathBuf {
     type Target = Path;
     #[verifier::external_body]
